@@ -228,7 +228,10 @@ def gen_steps(r, cols: Dict[str, str], tables: Dict[str, Dict[str, str]], max_st
             new = _fresh(cols, "w")
             fn = r.choice(WINDOW_AGG)
             part = sorted(r.sample(groups, r.choice([1, 1, 2]) if len(groups) > 1 else 1))
-            if fn == "size":
+            if r.random() < 0.12:
+                fn, expr = "ngroup", "_ngroup()"  # group number: defined by the sorted partition keys
+                part = sorted(r.sample(groups, min(2, len(groups))))
+            elif fn == "size":
                 expr = "_size()"
             elif fn == "count" and r.random() < 0.5:
                 expr = "_count()"
@@ -239,7 +242,7 @@ def gen_steps(r, cols: Dict[str, str], tables: Dict[str, Dict[str, str]], max_st
             else:
                 expr = f"{r.choice([c for c in nums])}.{fn}()"
             steps.append({"t": "extend", "ops": {new: expr}, "partition_by": part})
-            cols[new] = "nn" if fn in ("size", "count") else "float"
+            cols[new] = "nn" if fn in ("size", "count", "ngroup") else "float"
         elif kind == "owextend" and nums and (keys or groups):
             new = _fresh(cols, "o")
             fn = r.choice(WINDOW_ORD)
